@@ -26,6 +26,11 @@ EXTENDS Integers, FiniteSets, TLC
 
 CONSTANTS NB,              \* number of bases
           NonzeroGuard,
+          GroupWide,       \* the group order exceeds every product of committed values the relations multiply: 2|n| + slack bits. FALSE is
+                           \* the code as it is (|n| + 522 bits): r_k * r_k, with r_k of |n| (+258) bits, wraps around the group order, and the
+                           \* relation r_k^2 = s_k + k n, which is only checked in the exponent, can be satisfied for a non-square (D49)
+          GeneratorsDerived, \* the generators g, h of the group are derived from the (prover-chosen) group prime (repair of D50); FALSE:
+                           \* fixed integers reduced modulo it, so that a prime dividing a^x - b^y gives the prover log_g h
           MulTied          \* expStepB rebuilds the multiplier's representation through the committed base power (repair of D33);
                            \* FALSE: the step's own commitment Mul is tied to nothing
 
@@ -60,13 +65,16 @@ Relations ==
 NRels == { <<"pPprimeRel", 0>>, <<"qQprimeRel", 0>>, <<"pQNRel", 0>>, <<"pprimeIsPrime", 0>>, <<"qprimeIsPrime", 0>>, <<"mulTie", 0>> }
 BRels(k) == { <<"rootsValid", k>>, <<"squaresRep", k>>, <<"nRep", 0>> }
 
-VARIABLES zero,      \* the commitments the adversary sends as 0
+VARIABLES wrap,      \* the adversary uses roots of s_k + j*M (M the group order) for the bases it lies about
+          trap,      \* the adversary brings a group prime for which it knows log_g h
+          zero,      \* the commitments the adversary sends as 0
           lieN,      \* the modulus is no safe-prime product
           lieB,      \* the set of bases that are no squares
           false      \* the relations that are false for the values the adversary committed to
-vars == <<zero, lieN, lieB, false>>
+vars == <<wrap, trap, zero, lieN, lieB, false>>
 
-Init == /\ zero \in SUBSET {<<"p", 0>>, <<"q", 0>>, <<"pprime", 0>>, <<"qprime", 0>>, <<"N", 0>>, <<"r", 1>>, <<"s", 1>>, <<"inner", 0>>}
+Init == /\ wrap \in BOOLEAN /\ trap \in BOOLEAN
+        /\ zero \in SUBSET {<<"p", 0>>, <<"q", 0>>, <<"pprime", 0>>, <<"qprime", 0>>, <<"N", 0>>, <<"r", 1>>, <<"s", 1>>, <<"inner", 0>>}
         /\ lieN \in BOOLEAN /\ lieB \in SUBSET Bases
         /\ false \in SUBSET (NRels \cup UNION { BRels(k) : k \in Bases })
         \* the adversary's committed values are consistent with what it lies about
@@ -80,7 +88,10 @@ Vacuous(r) == r.uses \cap zero # {}
 NoFixedPoint == zero \cap RangeLhs # {}
 Accept == /\ NonzeroGuard => zero = {}
           /\ ~NoFixedPoint
-          /\ \A r \in Relations : r.name \in false => Vacuous(r)
+          /\ \A r \in Relations : r.name \in false =>
+                \/ Vacuous(r)
+                \/ (trap /\ ~GeneratorsDerived)                              \* commitments are not binding: any relation can be answered
+                \/ (wrap /\ ~GroupWide /\ r.name[1] = "rootsValid")           \* true modulo the group order, false modulo n
 
 \* C17: an accepted proof establishes a safe-prime product and square bases
 Sound == Accept => ~lieN /\ lieB = {}
